@@ -5,6 +5,7 @@ mod model;
 mod docgen;
 mod c02;
 mod c03;
+mod c07;
 
 use std::collections::HashMap;
 
@@ -49,6 +50,7 @@ fn main() {
     let rc = match argv[1].as_str() {
         "c02" => c02::run(&args),
         "c03" => c03::run(&args),
+        "c07" => c07::run(&args),
         other => {
             eprintln!("unknown command {other}");
             2
